@@ -45,7 +45,38 @@ def func_body(src, name, allow_if=False):
 FOR4 = re.compile(r"for\s*\(\s*int\s+(\w+)\s*=\s*0\s*;\s*(\w+)\s*<\s*4\s*;\s*(\w+)\+\+\s*\)\s*\{([^{}]*)\}")
 
 
+INNER4 = re.compile(r"for\s*\(\s*int\s+(\w+)\s*=\s*0\s*;\s*\1\s*<\s*4\s*;\s*\1\+\+\s*\)\s*([^;{}]*;)")
+
+
+def unroll_nested(body, name):
+    """braceless inner `for (int j = 0; j < 4; j++) stmt;` and, in the outer fixed loop, `if (i) stmt;` (taken iff the unrolled
+    index is non-zero) and the index `[i - 1]`"""
+    def inner(m):
+        v = m.group(1)
+        if re.search(r"\b%s\b" % v, re.sub(r"\[\s*%s\s*\]" % v, "[]", m.group(2))):
+            raise TranslateError("%s: inner loop variable used outside an index" % name)
+        return "".join(re.sub(r"\[\s*%s\s*\]" % v, "[%d]" % k, m.group(2)) for k in range(4))
+    body = INNER4.sub(inner, body)
+
+    def outer(m):
+        v, blk, out = m.group(1), m.group(4), []
+        if m.group(2) != v or m.group(3) != v:
+            raise TranslateError("%s: loop header not in subset" % name)
+        for k in range(4):
+            b = re.sub(r"\bif\s*\(\s*%s\s*\)\s*([^;{}]*;)" % v, (lambda mm: mm.group(1)) if k else "", blk)
+            if k:
+                b = re.sub(r"\[\s*%s\s*-\s*1\s*\]" % v, "[%d]" % (k - 1), b)
+            b = re.sub(r"\[\s*%s\s*\]" % v, "[%d]" % k, b)
+            if re.search(r"\b%s\b" % v, b):
+                raise TranslateError("%s: loop variable used outside the subset" % name)
+            out.append(b)
+        return "".join(out)
+    return FOR4.sub(outer, body)
+
+
 def unroll(body, name, allow_if=False):
+    if name == "quat_alg_rightmul_mat":
+        body = unroll_nested(body, name)
     def rep(m):
         v = m.group(1)
         if m.group(2) != v or m.group(3) != v:
@@ -78,7 +109,7 @@ def norm(e):
     return e
 
 
-OPERAND = re.compile(r"^(?:[A-Za-z_]\w*|[A-Za-z_]\w*\[\d\]|[A-Za-z_]\w*->(?:denom|p|num|den|coord\[\d\]))$")
+OPERAND = re.compile(r"^(?:[A-Za-z_]\w*|[A-Za-z_]\w*\[\d\]|[A-Za-z_]\w*\[\d\]\[\d\]|[A-Za-z_]\w*->(?:denom|p|num|den|coord\[\d\]))$")
 
 # signatures of the translated functions (for calls): (kind, direction) per C parameter, in order
 ELEM = lambda x: ["%s->denom" % x] + ["%s->coord[%d]" % (x, i) for i in range(4)]
@@ -315,6 +346,8 @@ def generate(repo, outdir):
          "d c0_ c1_ c2_ c3_", T5, True),
         ("quat_alg_normalize", elem("x"), ELEM("x"), "x", "xd x0 x1 x2 x3", T5, True),
         ("from_1ijk_to_O0basis", elem("el"), COORD("vec"), "vec", "eld el0 el1 el2 el3", T4, True),
+        ("quat_alg_rightmul_mat", {**elem("a"), "alg->p": "p"}, ["mulmat[%d][%d]" % (r, c) for r in range(4) for c in range(4)],
+         "mulmat", "p ad a0 a1 a2 a3", " × ".join(["Int"] * 16), True),
         ("quat_alg_elem_mul_by_scalar", {"scalar": "s", **elem("elem")}, ELEM("res"), "res",
          "s elemd elem0 elem1 elem2 elem3", T5, True),
     ]
